@@ -360,6 +360,15 @@ def Call.Aligned (deps : List Dep) (c : Call) : Prop :=
   (∀ i j di dj, deps[i]? = some di → deps[j]? = some dj → di.kind = dj.kind →
     (c.rowsOf i).length = (c.rowsOf j).length)
 
+/-- the interval of a row -/
+def iv (r : Row) : Int × Int := (r.time, r.endt)
+
+/-- same-kind dependencies describe the same things: their rows over the whole run are
+interval-equal (what `Chunk.merge` silently assumes when it zips them) -/
+def kindAlignedB (deps : List Dep) (chunks : List (List Chunk)) : Bool :=
+  (deps.zip chunks).all fun p => (deps.zip chunks).all fun q =>
+    p.1.kind != q.1.kind || (allRows p.2).map iv == (allRows q.2).map iv
+
 /-- calls tile time from `t` on: the first starts at `t`, each next one where the previous ended -/
 def adjacentFrom : Int → List Call → Prop
   | _, [] => True
